@@ -90,6 +90,12 @@ def run(ctx):
     ctx.mc('CalcFiles', 'MC_CalcFiles.cfg', workers=8, note='signature computation of a batch keeps file order under every completion order (shared with C13)')
     ctx.mc('BulkDist', 'MC_BulkDist.cfg', workers=8, overrides=dict(MaxQ=2, MaxR=3, MaxSel=3, MaxChunk=3), note='distance matrix of a batch: row i holds the distances of query i (shared with C05)')
     ctx.mc('ClassifyAlgo', 'MC_ClassifyAlgo.cfg', workers=16, overrides=dict(N=2, MaxRank=1), note='per-row classification (shared with C03)')
+    # which file a path names: operating-system resolution (links, `..`) versus textual clean-up, then the real channel functions
+    ctx.mc('MC_PathResolve', 'MC_PathResolve.cfg', coverage=False, workers=1, overrides=dict(MaxLen=4),
+           note='constant-level lemmas over 6 file systems x 4681 paths: textual normalisation is harmless without links, wrong behind a directory link; '
+                '"." and doubled separators are neutral; links are transparent; cycles fail')
+    from .. import paths
+    core.run_family(ctx, paths.PathResolution())
     rng = random.Random(ctx.seed)
     tmp = tlc.mktmp('c08-')
     try:
